@@ -49,6 +49,9 @@ fn main() {
         }
         std::process::exit(0);
     }
+    if prop == "audit-dump" {
+        std::process::exit(c_docs::audit_dump(&args[2]));
+    }
     if prop == "audit" {
         std::process::exit(c_docs::audit_model());
     }
